@@ -71,6 +71,18 @@ def float_field_width(K, D, dtype, rounded, counts_sign=True):
     return base, None
 
 
+def magnitude_field_width(B, D, dtype):
+    """Maximum formatted width of `f"{v:.{D}f}"` over all v with |v| < B (the guard refuses |v| >= B): the widest value is
+    the negative one of largest magnitude.  Returns (max_width, witness_text)."""
+    half = 0.5 * 10 ** (-D)
+    spacing = float32_spacing_below(float(B)) if dtype == "float32" else 0.0
+    carry = spacing <= half          # the largest admitted magnitude rounds up to B when printed
+    top = float(B) if carry else float(B) - max(spacing, half * 2)
+    digits = len(str(int(top)))
+    width = 1 + digits + 1 + D
+    return width, f"{-top:.{D}f} passes the guard |v| < {B:g} and needs {width} characters"
+
+
 def int_digits(lo, hi):
     """max len(str(v)) for integer v in [lo, hi]"""
     if lo == -INF or hi == INF:
